@@ -94,6 +94,9 @@ class Module:
             kind = 'assumed'
             self.unit.log.escapes.append({'fn': label, 'kind': 'external_body', 'contract': (spec.ensures or '').strip()[:300],
                                           'note': spec.note or ''})
+        elif spec is not None and spec.mode == 'external':
+            kind = 'external'
+            self.unit.log.escapes.append({'fn': label, 'kind': 'external (ignored by Verus, compiled by rustc)', 'contract': '', 'note': spec.note or ''})
         elif spec is None or not (spec.requires or spec.ensures or spec.loops):
             kind = 'fn'  # still verified for safety obligations
         self.chunks.append(Chunk(text, label, kind, spec, src=sha(sf.span_text(it.attr_lo, it.hi))))
@@ -103,6 +106,106 @@ class Module:
             ctext = weave_fn(sf, it, spec, self.unit.log, label, canary=True)
             self.chunks.append(Chunk(ctext, label + '__canary', 'canary', spec))
         return label
+
+    # ---- R8: dispatcher projection (outlining of the arms of `fn f(..) { match op { P_i => e_i } }`)
+    def fn_r8(self, sel, spec, arm_specs, file=None):
+        sf = self.sf(file)
+        it = sf.find(sel if isinstance(sel, list) else ['fn ' + sel])
+        toks = sf.toks
+        b0, b1 = it.body_lo, it.body_hi
+        if toks[b0 + 1].text != 'match':
+            raise Undecided('%s: R8 needs a body that is a single match' % it.name)
+        # scrutinee up to `{`
+        k = b0 + 2
+        while toks[k].text != '{':
+            k += 1
+        m0, m1 = k, match_close(toks, k)
+        if m1 + 1 != b1:
+            raise Undecided('%s: R8 needs a body that is a single match (trailing tokens)' % it.name)
+        scrut = sf.text[toks[b0 + 2].start:toks[k - 1].end]
+        # params text
+        p0 = it.kw + 2
+        while toks[p0].text != '(':
+            p0 += 1
+        p1 = match_close(toks, p0)
+        params = sf.text[toks[p0].start:toks[p1].end]
+        pnames = []
+        depth = 0
+        j = p0 + 1
+        expect = True
+        while j < p1:
+            t = toks[j]
+            if t.text in ('(', '[', '<'):
+                depth += 1
+            elif t.text in (')', ']', '>'):
+                depth -= 1
+            elif t.text == ',' and depth == 0:
+                expect = True
+            elif expect and t.kind == 'ident' and toks[j + 1].text == ':':
+                pnames.append(t.text)
+                expect = False
+            j += 1
+        sig_rest = sf.text[toks[p1].end:toks[b0].start]     # -> Ret where ...
+        head = sf.text[toks[it.lo].start:toks[it.kw + 1].end]  # pub fn name
+        generics = sf.text[toks[it.kw + 1].end:toks[p0].start]
+        # arms
+        arms = []
+        j = m0 + 1
+        while j < m1:
+            ps = j
+            while toks[j].text != '=>':
+                if toks[j].text in ('(', '[', '{'):
+                    j = match_close(toks, j)
+                j += 1
+            pat = sf.text[toks[ps].start:toks[j - 1].end]
+            last_ident = [t.text for t in toks[ps:j] if t.kind == 'ident'][-1]
+            j += 1
+            es = j
+            if toks[j].text == '{':
+                e = match_close(toks, j)
+                # block arm; a method chain / `?` may follow, otherwise the arm ends at the brace
+                j = e + 1
+                if j < m1 and toks[j].text in ('.', '?'):
+                    while j < m1 and toks[j].text != ',':
+                        if toks[j].text in ('(', '[', '{'):
+                            j = match_close(toks, j)
+                        j += 1
+            else:
+                while j < m1 and toks[j].text != ',':
+                    if toks[j].text in ('(', '[', '{'):
+                        j = match_close(toks, j)
+                    j += 1
+            expr = sf.text[toks[es].start:toks[j - 1].end]
+            arms.append((pat, last_ident, expr, es, j))
+            if j < m1 and toks[j].text == ',':
+                j += 1
+        base = '%s::%s' % (self.qual, it.name) if self.qual else it.name
+        self.unit.log.rw('R8', base, 'match %s { %d arms }' % (scrut, len(arms)), 'one function per arm + generated dispatcher')
+        disp_arms = []
+        for pat, nm, expr, es, ee in arms:
+            fname = '%s__%s' % (it.name, nm)
+            asp = arm_specs.get(nm) or FnSpec(fname)
+            label = '%s::%s' % (self.qual, fname) if self.qual else fname
+            # use the weaver on a synthetic source so that generic rewrites and declared rewrites apply to the arm text
+            synth = 'pub fn %s%s%s%s{\n%s\n}\n' % (fname, generics, params, sig_rest, expr)
+            ssf = SourceFile(sf.path + '#' + fname, synth)
+            sit = ssf.find(['fn ' + fname])
+            text = weave_fn(ssf, sit, asp, self.unit.log, label)
+            kind = 'assumed' if asp.mode == 'assumed' else 'fn'
+            if kind == 'assumed':
+                self.unit.log.escapes.append({'fn': label, 'kind': 'external_body', 'contract': (asp.ensures or '').strip()[:300], 'note': asp.note or ''})
+            self.chunks.append(Chunk(text, label, kind, asp, src=sha(expr)))
+            if asp.mode == 'verify' and asp.requires and (asp.canary is None or asp.canary):
+                ctext = weave_fn(ssf, sit, asp, self.unit.log, label, canary=True)
+                self.chunks.append(Chunk(ctext, label + '__canary', 'canary', asp))
+            disp_arms.append('        %s => %s(%s),' % (pat, fname, ', '.join(pnames)))
+        synth = '%s%s%s%s{\n    match %s {\n%s\n    }\n}\n' % (head, generics, params, sig_rest, scrut, '\n'.join(disp_arms))
+        ssf = SourceFile(sf.path + '#' + it.name, synth)
+        sit = ssf.find(['fn ' + it.name])
+        label = base
+        text = weave_fn(ssf, sit, spec, self.unit.log, label)
+        self.chunks.append(Chunk(text, label, 'fn', spec, src=sha(sf.span_text(it.attr_lo, it.hi))))
+        return self
 
     # ---- impl block with selected members
     def impl(self, header, members, file=None, header_text=None, trait_impl=None):
